@@ -13,14 +13,14 @@ ASSUMPTIONS = [
     "valid corpus: real Memoer.rend output of one memo per (4 zeroth codes x base64/base2 headers), 2 grams (thorough: also 3); "
     "signers are fixed ed25519 seeds with non-transferable vids; memo ids from the counter-based uuid stand-in",
     "crafted grams are built by a reference gram builder written from the wire-format description (it must reproduce rend's output "
-    "byte for byte, asserted at the start of every job) and self-signed by a third signer",
+    "byte for byte; asserted in every run, a mismatch makes the check exit 2) and self-signed by a third signer",
     "authenticity oracle (authic receivers only): every inbox entry equals (text, source, vid) of a memo whose grams were all "
     "produced by that vid's signer; for unsigned traffic to a non-authic receiver only 'does not raise' is demanded",
     "a gram count of 0 in a zeroth gram is a don't-care (hio delivers an empty memo)",
 ]
 SRC = "peer:9"
 MEMO = "hé:wörld"           # 10 bytes
-MEMO3 = "hé:wörld:thrée"    # 17 bytes
+MEMO3 = "hé:wörld:thrée:" * 4    # 68 bytes (a signed base64 gram other than the zeroth carries at least 45)
 ALPHA12 = [0x62, 0x41, 0x42, 0x43, 0x4a, 0x5a, 0x63, 0x6c, 0x00, 0x01, 0x09, 0xff]
 # 'b' (base64 head sextet 0o30), A B C J Z (code characters, Z undefined), 'c' (same first sextet as 'b'),
 # 0x6c (base2 head sextet 0o33), 0x00 0x01 0x09 (base2 code tails: bAAA bAAB bAAJ), 0xff (not utf-8, not base64)
@@ -29,13 +29,14 @@ ALPHA12 = [0x62, 0x41, 0x42, 0x43, 0x4a, 0x5a, 0x63, 0x6c, 0x00, 0x01, 0x09, 0xf
 def RULE(tier):
     return ("receivers with authic False and True x (a) ALL byte strings of length <= 2 (65793) as one datagram; (b) ALL strings of "
             "length 3..4 over a 12-byte alphabet holding both head-code sextets; (c) for each gram (zeroth / other) of a valid %s "
-            "memo per 4 codes x 2 header encodings: EVERY single-byte replacement by all 255 other values and EVERY truncation, "
+            "memo per 4 codes x 2 header encodings: EVERY single-byte replacement by all 255 other values%s and EVERY truncation, "
             "delivered in place among the memo's intact grams%s; (d) crafted self-signed and unsigned gram sets with count in 0..3 and "
             "gram numbers from {0,1,2,5,2^24-1} (every subset, 2 orders), i.e. gram numbers at and beyond the count. Oracle: no "
             "exception escapes serviceAllRx (key = escape:<innermost hio frame>:<type>); authic receivers deliver only memos all of "
             "whose grams verify for the claimed signer and equal the original; crafted sets deliver exactly when grams 0..count-1 are "
             "present. Every case is a distinct datagram sequence." % (
                 "2-gram" if tier == "quick" else "2-gram and 3-gram",
+                " (quick: for the two 'sure' codes at every header byte, the first body byte, the first signature byte and the last byte)" if tier == "quick" else "",
                 "" if tier == "quick" else ", and once more followed by the intact original of the mutated gram"))
 
 
@@ -141,7 +142,7 @@ def region(code, curt, gi, pos, glen):
     return "body"
 
 
-def run_variant(authic, code, curt, ng, gi, variant, again):
+def run_variant(authic, code, curt, ng, gi, variant, again, note=""):
     """deliver the memo's grams in order with gram gi replaced by `variant` (then optionally the intact original of gi)"""
     grams, want = corpus(code, curt, ng)
     seq = [variant if i == gi else g for i, g in enumerate(grams)]
@@ -150,19 +151,21 @@ def run_variant(authic, code, curt, ng, gi, variant, again):
     r = ms.receiver(authic)
     viols = []
     ex = ms.deliver(r, [(g, SRC) for g in seq])
-    what = "memo %r code=%s %s, gram %d replaced by %r%s (authic=%s)" % (want[0], code, "b2" if curt else "b64", gi, variant,
-                                                                        " then resent intact" if again else "", authic)
-    judge_escape(ex, viols, what)
     got = [tuple(x) for x in r.inbox]
-    signed = code in ms.SIGNED
-    if authic:
-        for x in got:
-            if not signed:
-                viols.append(("unsigned-delivered:authic", "%s: authic receiver delivered %r from unsigned traffic" % (what, x)))
-            elif x != want:
-                viols.append(("unauthentic-delivered:authic", "%s: authic receiver delivered %r, original is %r" % (what, x, want)))
-        if got.count(want) > 1:
-            viols.append(("delivered-twice:authic", "%s: delivered %d times" % (what, got.count(want))))
+    if ex is not None or (authic and got):
+        what = "memo %r code=%s %s, gram %d (%s) %s replaced by %r%s (authic=%s)" % (
+            want[0], code, "b2" if curt else "b64", gi, "zeroth" if gi == 0 else "other", note, variant,
+            " then resent intact" if again else "", authic)
+        judge_escape(ex, viols, what)
+        signed = code in ms.SIGNED
+        if authic:
+            for x in got:
+                if not signed:
+                    viols.append(("unsigned-delivered:authic", "%s: authic receiver delivered %r from unsigned traffic" % (what, x)))
+                elif x != want:
+                    viols.append(("unauthentic-delivered:authic", "%s: authic receiver delivered %r, original is %r" % (what, x, want)))
+            if got.count(want) > 1:
+                viols.append(("delivered-twice:authic", "%s: delivered %d times" % (what, got.count(want))))
     return ("variant", None if ex is None else (ms.site_of(ex), type(ex).__name__), tuple(x == want for x in got)), viols
 
 
@@ -230,16 +233,17 @@ def run_case(job, case):
         grams, _ = corpus(code, curt, ng)
         g = bytearray(grams[gi])
         g[pos] = val
-        return run_variant(authic, code, curt, ng, gi, bytes(g), bool(again))
+        return run_variant(authic, code, curt, ng, gi, bytes(g), bool(again),
+                           "byte %d (%s) %#04x->%#04x:" % (pos, region(code, curt, gi, pos, len(g)), grams[gi][pos], val))
     if kind == "truncate":
         code, curt, ng = job[2], bool(job[3]), job[4]
         again, gi, n = case[0], case[1], case[2]
         grams, _ = corpus(code, curt, ng)
-        return run_variant(authic, code, curt, ng, gi, grams[gi][:n], bool(again))
+        return run_variant(authic, code, curt, ng, gi, grams[gi][:n], bool(again), "truncated to %d of %d bytes:" % (n, len(grams[gi])))
     if kind == "craft":
         code, curt = job[2], bool(job[3])
         count, rev = case[0], case[1]
-        return run_craft(authic, code, curt, count, tuple(case[2:]), bool(rev))
+        return run_craft(authic, code, curt, count, tuple(case[4:]), bool(rev))
     raise ValueError(kind)
 
 
@@ -274,22 +278,26 @@ def run_job(job, tier, seed):
         grams, _ = corpus(code, curt, ng)
         g = grams[gi]
         for again in ((0,) if tier == "quick" else (0, 1)):
+            regs = [region(code, curt, gi, pos, len(g)) for pos in range(len(g))]
             for pos in range(len(g)):
                 if pos % nsh != k:
                     continue
+                if tier == "quick" and code in ("bAAE", "bAAG") and regs[pos] in ("body", "signature") and \
+                        0 < pos < len(g) - 1 and regs[pos - 1] == regs[pos]:
+                    continue    # quick: 'sure' codes share the plain/auth code paths; header bytes + first byte of body/signature + last byte
                 for val in range(256):
                     if val != g[pos]:
-                        do([again, pos, val], dict(code=code, curt=curt, gram=gi, pos=pos, region=region(code, curt, gi, pos, len(g)), value=val))
+                        do([again, pos, val, 0, 0], dict(code=code, curt=curt, gram=gi, pos=pos, region=region(code, curt, gi, pos, len(g)), value=val))
     elif kind == "truncate":
         code, curt, ng = job[2:5]
         grams, _ = corpus(code, curt, ng)
         for again in ((0,) if tier == "quick" else (0, 1)):
             for gi in range(ng):
                 for n in range(len(grams[gi])):
-                    do([again, gi, n], dict(code=code, curt=curt, gram=gi, kept=n, of=len(grams[gi])))
+                    do([again, gi, n, 0, 0], dict(code=code, curt=curt, gram=gi, kept=n, of=len(grams[gi])))
     elif kind == "craft":
         for count, present, rev in craft_cases():
-            do([count, 1 if rev else 0] + list(present), dict(code=job[2], curt=job[3], count=count, numbers=list(present), reversed=rev))
+            do([count, 1 if rev else 0, 0, 0] + list(present), dict(code=job[2], curt=job[3], count=count, numbers=list(present), reversed=rev))
     return acc.result()
 
 
